@@ -259,6 +259,24 @@ CLAIMS['C09'] = dict(
     'linear-inequality entailment + monomial algebra + effect rules',
     engine='E4-panels')
 
+CLAIMS['C14'] = dict(
+    category='other',
+    text='Availability of every named order from returned, moment-verified '
+    'table rules; singular-measure identities of the H^1/4 and same-piece '
+    'H^1/2 rules (kernel o T)*|det DT| = built-in Gauss weight * explicit '
+    'factor with the right power of h; two-piece rule: Jacobians, apex at '
+    'the meeting corner, exact tiling moments; evaluation structure '
+    '(quadratic in f, translation only through the affine map, flat vs '
+    'curve-aware differ only in the distance); tensor layout and affine '
+    'maps.  Twelve-digit floating-point agreement is not decided.',
+    design_ref='DESIGN.md section 3 E1/E5 (R-singular-measure), section 4 '
+    'C14',
+    note='Trusted: ast, mpmath.iv, sympy, numpy index semantics.  Not '
+    'decided: floating-point agreement to twelve digits; corner reference.',
+    technique='literal-table moments + symbolic evaluation of the scheme '
+    'constructor into maps/weights + exact measure identities',
+    engine='E5-quadalg')
+
 PENDING = 'rule set not yet implemented in this build (see DESIGN.md Appendix F for the order)'
 NA = {
     'C13':
